@@ -5,14 +5,138 @@ Driver glue for C52.  Names/bytes in hex (`-` empty, `~` = None), states as in `
   `C52 setContent <pre-state> <basename> <rnd16> <ext> <content> <cut>`
   `C52 save <pre-state> <name> <filename|~> <tag|~> <ext> <data> <cut>`
   `C52 names <name> <filename|~> <tag|~> <ext>`                → `<finalname> <tempname>`
+  `C52 setContentH <pre-state> <basename> <rnd|ext|content;…> <cut> <crash|exc:Name>`
+  `C52 saveH <pre-state> <name> <filename|tag|ext|data;…> <cut> <crash|exc:Name>`   (data `!` = the dump raises)
+       several calls on ONE object: all but the last complete, the last cut (killed, or the primitive raises `Name`);
+       → the directory after every call joined by ` >> `, each with ` !raised <Name>` when that call raised.
+       In these two ops a content/data token is `-` or `+`-joined segments (hex | `<hex>*<count>` | `gen:<n>:<s>`), and
+       contents longer than 256 bytes are printed as `#<length>:<big-endian integer mod 2^61-1>`.
 → the directory after the run / after the crash at `<cut>`; ` !raised FileExistsError` appended
   when the temporary sibling already exists (nothing is touched then).
 -/
 namespace Twisted.Drv.C52
 open Twisted.Fs Twisted.Fs.Wire Twisted.Fs.SetContent Twisted.Py
 
+/-- digest of a long content: the big-endian integer modulo the Mersenne prime 2^61 - 1 (the harness prints the same:
+    `int.from_bytes(b, "big") % (2**61 - 1)`) -/
+def digest (bs : Fs.Bytes) : Nat :=
+  bs.foldl (fun h b => (h * 256 + b.toNat) % 2305843009213693951) 0
+
+/-- contents up to 256 bytes in hex, longer ones as `#<length>:<digest>` -/
+def showContent (c : Fs.Bytes) : String :=
+  if c.length ≤ 256 then hex c else "#" ++ toString c.length ++ ":" ++ toString (digest c)
+
+/-- `showFs` of `Fs/Wire.lean` with `showContent` -/
+def showFsC (fs : Fs) : String :=
+  let ns := ((names fs).eraseDups.toArray.qsort fun a b => (a.map UInt8.toNat) < (b.map UInt8.toNat)).toList
+  if ns.isEmpty then "." else
+  ",".intercalate (ns.map fun n => hex n ++ "=" ++ showContent ((get fs n).getD []))
+
+/-- the harness' position-dependent test pattern `gen:<n>:<s>` -/
+def genBytes (n s : Nat) : Fs.Bytes := (List.range n).map fun i => UInt8.ofNat ((i * 7 + s + i / 251) % 256)
+
+/-- one segment of a content token: hex, `<hex>*<count>` (repeated), or `gen:<n>:<s>` -/
+def readSeg (s : String) : Option Fs.Bytes :=
+  match s.splitOn ":" with
+  | ["gen", n, sd] => do
+      let n ← n.toNat?
+      let sd ← sd.toNat?
+      pure (genBytes n sd)
+  | _ =>
+    match s.splitOn "*" with
+    | [b, n] => do
+        let bs ← unhex b
+        let n ← n.toNat?
+        pure (List.replicate n bs).flatten
+    | [h] => if h = "-" then none else unhex h
+    | _ => none
+
+/-- a content token: `-` (empty) or segments joined by `+` -/
+def readContent (s : String) : Option Fs.Bytes :=
+  if s = "-" then some [] else
+  (s.splitOn "+").foldlM (fun acc seg => do
+    let b ← readSeg seg
+    pure (acc ++ b)) []
+
+def readSC (s : String) : Option SCOp :=
+  match s.splitOn "|" with
+  | [r, e, c] => do
+      let r ← unhex r
+      let e ← unhex e
+      let c ← readContent c
+      pure ⟨r, e, c⟩
+  | _ => none
+
+def readSave (s : String) : Option SaveOp :=
+  match s.splitOn "|" with
+  | [f, t, e, d] => do
+      let f ← readOpt f
+      let t ← readOpt t
+      let e ← unhex e
+      let d ← if d = "!" then some none else (readContent d).map some
+      pure ⟨f, t, e, d⟩
+  | _ => none
+
+/-- `crash` (the process is killed at the cut) or `exc:<Name>` (the primitive at the cut raises `<Name>`) -/
+def readMode (s : String) : Option (Option String) :=
+  if s = "crash" then some none else
+  match s.splitOn ":" with
+  | ["exc", n] => if n.isEmpty then none else some (some n)
+  | _ => none
+
+/-- state after the cut / the failing primitive, and whether the failure was reached -/
+def cutState (tr : List Prim) (cut : Option (Nat × Nat)) (mode : Option String) (fs : Fs) : Fs × Option String :=
+  match cut, mode with
+  | none, _ => (run tr fs, none)
+  | some (k, p), none => (crashAt tr k p fs, none)
+  | some (k, p), some n => (failAt tr k p fs, if k < tr.length then some n else none)
+
+def sep : String := " >> "
+
+def setContentH (fs : Fs) (base : Name) (ops : List SCOp) (cut : Option (Nat × Nat)) (mode : Option String) : String :=
+  match ops.reverse with
+  | [] => "bad-op"
+  | last :: initR =>
+    let (mid, outs) := initR.reverse.foldl (fun (acc : Fs × List String) op =>
+      let (fs, outs) := acc
+      match setContentTrace fs base op.rnd op.ext op.content with
+      | .ok tr => let fs' := run tr fs; (fs', outs ++ [showFsC fs'])
+      | .error .fileExists => (fs, outs ++ [showFsC fs ++ " !raised FileExistsError"])) (fs, [])
+    let lastOut :=
+      match setContentTrace mid base last.rnd last.ext last.content with
+      | .ok tr =>
+        let (st, r) := cutState tr cut mode mid
+        showFsC st ++ (match r with | some n => " !raised " ++ n | none => "")
+      | .error .fileExists => showFsC mid ++ " !raised FileExistsError"
+    sep.intercalate (outs ++ [lastOut])
+
+def saveH (fs : Fs) (name : Name) (ops : List SaveOp) (cut : Option (Nat × Nat)) (mode : Option String) : String :=
+  match ops.reverse with
+  | [] => "bad-op"
+  | last :: initR =>
+    let (mid, outs) := initR.reverse.foldl (fun (acc : Fs × List String) op =>
+      let (fs, outs) := acc
+      let fs' := run (saveOpTrace name op) fs
+      (fs', outs ++ [showFsC fs' ++ (if op.data.isNone then " !raised DumpError" else "")])) (fs, [])
+    let tr := saveOpTrace name last
+    let (st, r) := cutState tr cut mode mid
+    let reached := match cut with | none => true | some (k, _) => tr.length ≤ k
+    let lastOut := showFsC st ++
+      (match r with
+       | some n => " !raised " ++ n
+       | none => if last.data.isNone && reached then " !raised DumpError" else "")
+    sep.intercalate (outs ++ [lastOut])
+
 def handle (args : List String) : String :=
   match args with
+  | ["setContentH", pre, base, ops, cut, mode] =>
+    match readFs pre, unhex base, (ops.splitOn ";").mapM readSC, readCut cut, readMode mode with
+    | some fs, some base, some ops, some cut, some mode => setContentH fs base ops cut mode
+    | _, _, _, _, _ => "bad-op"
+  | ["saveH", pre, name, ops, cut, mode] =>
+    match readFs pre, unhex name, (ops.splitOn ";").mapM readSave, readCut cut, readMode mode with
+    | some fs, some name, some ops, some cut, some mode => saveH fs name ops cut mode
+    | _, _, _, _, _ => "bad-op"
   | ["setContent", pre, base, rnd, ext, content, cut] =>
     match readFs pre, unhex base, unhex rnd, unhex ext, unhex content, readCut cut with
     | some fs, some base, some rnd, some ext, some content, some cut =>
